@@ -20,6 +20,7 @@ RULE = (
     "inside their spans, cached flag consistent), RunEnd status = status the caller observed, shutdown exactly once "
     "and after the last event, NodeStart count of leaf nodes = function invocations + cache hits. Non-trivial: the "
     "stream has >= 2 node spans; distinct = (program shape, variant)."
+    ' Cache backends whose k-th write OR k-th lookup fails.'
 )
 ASSUMPTIONS = ["PAUSED calls are outside the statement and are counted, not judged"]
 DECIDING = ["streams_checked", "events_checked"]
